@@ -19,6 +19,20 @@ Observations:
     pstates <A|P|T,..>                 the same through the current promise (must agree; oracle only)
     retained <g,..>                    generators still alive after the program dropped every
                                        reference of its own and gc.collect() ran (end of scenario)
+Several instances: a line that starts with `@k` belongs to instance k (default 0): its own
+CoroutineProcessor, generators and operations; operations are executed in file order, so the
+instances live side by side and are driven interleaved; the observations of instance k > 0 come back
+marked `@k`.  Per-instance properties imply non-interference: nothing an instance does may show in
+another one's observations.
+
+World mode (a `world` line in the instance): the processor sits in a desper.World and is reached
+through it - `op process` is world.process(dt), `op dstart g` / `op dstart0 g` start g through the
+@desper.coroutine decorator (world= argument / default-loop form), `op replace` does
+world.add_processor(CoroutineProcessor()), `op remove` world.remove_processor(CoroutineProcessor);
+start / kill / state address the world's current CoroutineProcessor.
+
+Numbers may carry a type letter (F Fraction, I int, B bool; none: float): see `Num`.
+
 Hints (for the model): one `hint <g,..>` line per process op: the generators in the order their
 bodies ran in that call (tie-break among equal deadlines in the wake-up heap).
 """
@@ -30,8 +44,35 @@ from desper.logic.coroutines import CoroutineProcessor, CoroutineState
 LETTER = {CoroutineState.TERMINATED: 'T', CoroutineState.PAUSED: 'P', CoroutineState.ACTIVE: 'A'}
 
 
+class Num(int):
+    """a number of the scenario text (units of 1/8 s) that remembers how it was written: a leading
+    letter names the Python type the implementation is to be given - F fractions.Fraction, I int,
+    B bool, none: float.  The oracle and the model only use the value."""
+    tok = ''
+
+
 def dec(t):
-    return None if t == 'N' else int(t)
+    if t == 'N':
+        return None
+    n = Num(int(t[1:]) if t[0] in 'FIB' else int(t))
+    n.tok = t
+    return n
+
+
+def to_py(n):
+    """the Python number for a scenario number: the same value k/8 in the requested type (exact)"""
+    kind = getattr(n, 'tok', '')[:1]
+    k = int(n)
+    if kind == 'F':
+        import fractions
+        return fractions.Fraction(k, 8)
+    if kind == 'I':
+        assert k % 8 == 0, n
+        return k // 8
+    if kind == 'B':
+        assert k in (0, 8), n
+        return k == 8
+    return k / 8.0
 
 
 def enc(v):
@@ -66,6 +107,8 @@ def parse_step(toks):
 def parse(lines):
     scripts, ops = [], []
     for ln in lines:
+        if ln.split() == ['world']:
+            continue
         t = ln.split()
         if not t:
             continue
@@ -100,11 +143,25 @@ class Run:
     def __init__(self, lines):
         self.scripts, self.ops = parse(lines)
         self.obs = []
-        self.proc = CoroutineProcessor()
+        self.world = None
+        if any(ln.split() == ['world'] for ln in lines):
+            import desper
+            self.world = desper.World()
+            self.world.add_processor(CoroutineProcessor())
+            self._proc = None
+        else:
+            self._proc = CoroutineProcessor()
         self.gens = {g: self.body(g, sc) for g, sc in enumerate(self.scripts)}
         self.promises = {g: [] for g in self.gens}
         self.frame_steps = None
         self.frames = []
+
+    @property
+    def proc(self):
+        """the processor the program talks to: in world mode the world's current one"""
+        if self.world is not None:
+            return self.world.get_processor(CoroutineProcessor)
+        return self._proc
 
     def obj(self, h):
         return self.gens[h] if h in self.gens else NotAGenerator()
@@ -118,16 +175,44 @@ class Run:
             for a, h in acts:
                 self.obs.append(f'act {g} {i} {a} {h} {self.action(a, h)}')
             if kind == 'yield':
-                yield None if val is None else val / 8.0
+                yield None if val is None else to_py(val)
             elif kind == 'raise':
                 raise make_exception(val)
             else:
                 return val
 
+    def decorated_start(self, h, explicit):
+        """start generator h through @desper.coroutine: the decorated function hands out the
+        generator object of the scenario"""
+        import desper
+        obj = self.obj(h)
+        if explicit:
+            def spawn(world=None):
+                return obj
+            return desper.coroutine(spawn)(world=self.world)
+
+        def spawn0():
+            return obj
+        world = self.world
+
+        class Here(desper.Handle):
+            def load(self):
+                return world
+        old = desper.default_loop
+        desper.default_loop = desper.SimpleLoop()
+        try:
+            desper.default_loop.switch(Here())
+            return desper.coroutine(spawn0)()
+        finally:
+            desper.default_loop = old
+
     def action(self, a, h):
         try:
             if a == 'start':
                 self.promises.setdefault(h, []).append(self.proc.start(self.obj(h)))
+                return 'ok'
+            if a in ('dstart', 'dstart0'):
+                self.promises.setdefault(h, []).append(self.decorated_start(h, a == 'dstart'))
                 return 'ok'
             if a == 'kill':
                 self.proc.kill(self.obj(h))
@@ -146,7 +231,11 @@ class Run:
         if kind == 'process':
             self.frame_steps = []
             try:
-                self.proc.process(int(t[1]) / 8.0)
+                dt = to_py(dec(t[1]))
+                if self.world is not None:
+                    self.world.process(dt)
+                else:
+                    self.proc.process(dt)
                 out = 'ok'
             except Exception as e:    # noqa
                 from harness.core import Timeout
@@ -158,6 +247,12 @@ class Run:
         elif kind == 'value':
             ps = self.promises.get(int(t[1]), [])
             out = 'value ' + (','.join(enc(p.value) for p in ps) or '-')
+        elif kind == 'replace':
+            self.world.add_processor(CoroutineProcessor())
+            out = 'ok'
+        elif kind == 'remove':
+            self.world.remove_processor(CoroutineProcessor)
+            out = 'ok'
         else:
             out = self.action(kind, int(t[1]))
         self.obs.append('res ' + out)
@@ -165,24 +260,26 @@ class Run:
         self.obs.append('pstates ' + (','.join(self.pstate_of(g) for g in self.gens) or '-'))
 
     def state_of(self, g):
+        proc = self.proc
+        if proc is None:
+            return 'T'                  # the world has no coroutine processor: nothing is running
         try:
-            return LETTER[self.proc.state(self.gens[g])]
+            return LETTER[proc.state(self.gens[g])]
         except Exception as e:        # noqa
             return type(e).__name__
 
     def pstate_of(self, g):
-        """state through the promise handed out last (the generator's own state if none yet)"""
+        """state through the promise handed out last by the current processor (the generator's own
+        state if there is none)"""
         ps = self.promises.get(g)
-        if not ps:
+        if not ps or ps[-1].processor is not self.proc:
             return self.state_of(g)
         try:
             return LETTER[ps[-1].state]
         except Exception as e:        # noqa
             return type(e).__name__
 
-    def go(self):
-        for t in self.ops:
-            self.top(t)
+    def finish(self):
         # runtime part of C09: what does the processor still hold on to?
         refs = {g: weakref.ref(o) for g, o in self.gens.items()}
         self.gens.clear()
@@ -190,8 +287,8 @@ class Run:
         gc.collect()
         alive = [str(g) for g, r in refs.items() if r() is not None]
         self.obs.append('retained ' + (','.join(alive) or '-'))
-        # a generator woken in one call may get its first turn in a later one (after a call that a
-        # body aborted): the tie-break of a call also lists the bodies of the two calls after it
+        # a generator woken in one call may get its first turn in a later one: the tie-break of a
+        # call also lists the bodies of the two calls after it
         hints = []
         for k in range(len(self.frames)):
             seq = [g for f in self.frames[k:k + 3] for g in f]
@@ -199,11 +296,39 @@ class Run:
         return self.obs, hints
 
 
+def split_instances(lines):
+    """[(k, line without its @k mark)] in file order"""
+    out = []
+    for ln in lines:
+        t = ln.split()
+        if t and t[0].startswith('@') and t[0][1:].isdigit():
+            out.append((int(t[0][1:]), ' '.join(t[1:])))
+        else:
+            out.append((0, ln))
+    return out
+
+
+def mark(k, lines):
+    return lines if k == 0 else [f'@{k} {ln}' for ln in lines]
+
+
 def run_impl(lines):
     # objects that exist already are of no interest to the final gc.collect(): keep them out of it
     # (otherwise its cost grows with everything the check has accumulated so far)
     gc.freeze()
     try:
-        return Run(lines).go()
+        marked = split_instances(lines)
+        ids = [0] + sorted({k for k, _ in marked} - {0})
+        runs = {k: Run([ln for j, ln in marked if j == k]) for k in ids}     # all alive side by side
+        for k, ln in marked:
+            t = ln.split()
+            if t and t[0] == 'op':
+                runs[k].top(t[1:])
+        obs, hints = [], []
+        for k in ids:
+            o, h = runs[k].finish()
+            obs += mark(k, o)
+            hints += mark(k, h)
+        return obs, hints
     finally:
         gc.unfreeze()
